@@ -232,9 +232,11 @@ def run_equiv(case):
     rec.update(out="", eq6=[], eq3=[], nick="")
     try:
         B, T, unit = case["s1"]
-        s1 = _impl["SS"](core.scheme_float(B, T, unit))
+        # uexp: both sides are scaled by 2^-uexp (exact); TLC only sees the integer penalties
+        scale = 2.0 ** case.get("uexp", 0)
+        s1 = _impl["SS"](core.scheme_float(B, T, unit * scale))
         for B2, T2, u2 in case["others"]:
-            s2 = _impl["SS"](core.scheme_float(B2, T2, u2))
+            s2 = _impl["SS"](core.scheme_float(B2, T2, u2 * scale))
             r6, r3 = s1.is_equivalent_to(s2), s1.is_equivalent_to_on_complete_rankings_only(s2)
             if r6 not in (True, False) or r3 not in (True, False):
                 raise TypeError("not bool")
@@ -275,6 +277,16 @@ def equiv_cases(rng, n):
     return [{"op": "equiv", "s1": s, "others": S} for s in S]
 
 
+def extreme_cases(rng, n):
+    """both schemes of every pair around 2^600 or around 2^-600 (products of two penalties leave the range of doubles,
+    quotients do not)"""
+    out = []
+    for uexp in (600, -600, 520, -530):
+        S = closed_sample(rng, n)
+        out += [{"op": "equiv", "s1": s, "others": S, "uexp": uexp} for s in S]
+    return out
+
+
 def multiples_cases(rng):
     """integer multiples by 3, 7, 49, 98, 147 of dyadic schemes (1/49*49 is not 1 in floating point, the quotients of
     exact multiples are the same double), next to near-multiples"""
@@ -310,4 +322,6 @@ def stages(tier, rng, only=None):
     out.append(Stage("equiv", "Trace_Scheme", run_equiv, lambda: equiv_cases(rng, 120 if tier == "quick" else 300),
                      _nt, _init))
     out.append(Stage("equiv_odd_multiples", "Trace_Scheme", run_equiv, lambda: multiples_cases(rng), _nt, _init))
+    out.append(Stage("equiv_extreme_magnitudes", "Trace_Scheme", run_equiv,
+                     lambda: extreme_cases(rng, 40 if tier == "quick" else 120), _nt, _init))
     return [s for s in out if not only or s.name == only]
